@@ -287,11 +287,15 @@ def d1(ctx, rep):
         elif stack and isinstance(stack[0].args[0], (ast.Tuple, ast.List)):
             pair = [getattr(a, 'id', None) for a in stack[0].args[0].elts]
         ok = argsok and pair == [lv, rv]
-    rep.check('D1.accessor', gc, sel[0] if sel else gc.node.name, ok, 'the copula of a child edge is selected on get_conditional_uni(left_parent, right_parent)',
-              'the copula of a child edge is not selected on the conditional pseudo-observations of its own parents', construct='child edge selection input')
+    if not (cu and sel):
+        rep.undecided('D1.accessor', gc, gc.node.name, 'how get_child_edge obtains the inputs of the new edge / selects its copula was not recognised', construct='child edge selection input')
+    else:
+        rep.check('D1.accessor', gc, sel[0] if sel else gc.node.name, ok, 'the copula of a child edge is selected on get_conditional_uni(left_parent, right_parent)',
+                  'the copula of a child edge is not selected on the conditional pseudo-observations of its own parents', construct='child edge selection input')
     # first trees: the two columns given to select_copula are the nodes that become L, R
     for clsn in ('CenterTree', 'DirectTree', 'RegularTree'):
-        fn = prog.cls(TREE + clsn).methods['_build_first_tree']
+        from ..inline import inlined_view
+        fn = inlined_view(ctx, prog.cls(TREE + clsn).methods['_build_first_tree'])       # a shared "select, build, append" helper is the same construction
         sel = [c for c in walk_no_nested(fn.node) if isinstance(c, ast.Call) and call_name(c) == 'select_copula']
         mk = [s for s in walk_no_nested(fn.node) if isinstance(s, ast.Assign) and isinstance(s.value, ast.Call) and (prog.resolve(fn.module, s.value.func) or '').endswith('tree.Edge')]
         if not sel or not mk:
